@@ -142,16 +142,19 @@ def check_pair(acc, kind, z, zm, role, Tsign, m, b, E, mm, bm, Em, beta=None, ta
         acc.violation(f'C09/contact/{kind}', 'documented Hertz expression', case, {'got': got, 'ref': sc})
 
 
-def check_wheel(acc, alpha_deg, beta_deg, z, wheel_is_master, Tsign, m, b, d_worm, tag='full', decoy=None):
+def check_wheel(acc, alpha_deg, beta_deg, z, wheel_is_master, Tsign, m, b, d_worm, tag='full', decoy=None, aunit='deg'):
     """decoy: None | 'with' | 'without' -- a SECOND worm gear (other diameter / none) is the wheel's neighbour on the
     other side through a fixed joint (two-stage worm reducer): the formulas must use the worm the wheel is MATED with."""
     case = {'kind': 'wheel', 'alpha': alpha_deg, 'beta': beta_deg, 'z': z, 'wheel_is_master': wheel_is_master,
-            'Tsign': Tsign, 'm': m, 'b': b, 'd': d_worm, 'decoy': decoy}
+            'Tsign': Tsign, 'm': m, 'b': b, 'd': d_worm, 'decoy': decoy, 'aunit': aunit}
     try:
-        wh = WormWheel(name='wh', n_teeth=z, inertia_moment=J1, helix_angle=Angle(beta_deg, 'deg'),
-                       pressure_angle=Angle(alpha_deg, 'deg'), module=L(m), face_width=L(b))
-        wg = WormGear(name='wg', n_starts=2, inertia_moment=J1, helix_angle=Angle(beta_deg, 'deg'),
-                      pressure_angle=Angle(alpha_deg, 'deg'), reference_diameter=L(d_worm))
+        # aunit: the unit the two angles are written in (the tabulated pressure angle converted by gearpy itself)
+        def A(deg):
+            return Angle(deg, 'deg') if aunit == 'deg' else Angle(deg, 'deg').to(aunit)
+        wh = WormWheel(name='wh', n_teeth=z, inertia_moment=J1, helix_angle=A(beta_deg),
+                       pressure_angle=A(alpha_deg), module=L(m), face_width=L(b))
+        wg = WormGear(name='wg', n_starts=2, inertia_moment=J1, helix_angle=A(beta_deg),
+                      pressure_angle=A(alpha_deg), reference_diameter=L(d_worm))
         # flags before mating: the gear's own data only
         pre = (wh.tangential_force_is_computable, wh.bending_stress_is_computable)
         if wheel_is_master:
@@ -412,6 +415,10 @@ def run_shard(shard, tier):
                                             for decoy in ('with', 'without'):
                                                 check_wheel(acc, a, beta, z, wm, Tsign, m, b, d, decoy=decoy)
                                                 acc.nstates += 1
+                                        if Tsign == -1 and m is not None and b is not None and d is not None:
+                                            for au in ('rad', 'arcmin', 'arcsec', 'rot'):
+                                                check_wheel(acc, a, beta, z, wm, Tsign, m, b, d, aunit=au)
+                                                acc.nstates += 1
         acc.sample({'kind': 'worm wheel', 'pressure_angles': ALPHAS, 'orientations': 2, 'face_width_vs_0.67d': 'both sides',
                     'data_subsets': 'module, face width (wheel) x reference diameter (worm)'})
     acc.cases += acc.nstates
@@ -429,7 +436,7 @@ def replay(case):
     elif case.get('kind') == 'remate':
         check_remating(acc, case['gk'], case['z'], [tuple(x) for x in case['seq']])
     elif case.get('kind') == 'wheel':
-        check_wheel(acc, case['alpha'], case['beta'], case['z'], case['wheel_is_master'], case['Tsign'], case['m'], case['b'], case['d'], decoy=case.get('decoy'))
+        check_wheel(acc, case['alpha'], case['beta'], case['z'], case['wheel_is_master'], case['Tsign'], case['m'], case['b'], case['d'], decoy=case.get('decoy'), aunit=case.get('aunit', 'deg'))
     else:
         return run_shard(case['shard'], 'quick').violations
     return acc.violations
